@@ -152,7 +152,7 @@ func runC11(e *Env) {
 			n := r.IntN(8)
 			var b strings.Builder
 			for i := 0; i < n; i++ {
-				b.WriteString(pick(r, []string{"/", "/", " ", ".", "a", "b", "\t", "ab"}))
+				b.WriteString(pick(r, []string{"/", "/", " ", ".", "a", "b", "\t", "ab", "/", "a", "\u00a0", "\u2028"}))
 			}
 			return b.String()
 		}
@@ -163,7 +163,7 @@ func runC11(e *Env) {
 			Q = P
 			switch r.IntN(7) {
 			case 0:
-				Q = " " + Q + "\t"
+				Q = pick(r, []string{" ", "\u3000", ""}) + Q + pick(r, []string{"\t", "\u00a0", "\u0085", " \u2028"})
 			case 1:
 				Q = "/" + Q
 			case 2:
